@@ -778,7 +778,7 @@ def splice_body(em, body, c, fnid):
             end = pos + len(pat)
             if pat[-1] not in (";", "}", "{"):
                 # the pattern is a statement prefix: extend to the end of that statement (next `;` at bracket depth 0)
-                depth = 0
+                depth = sum(1 for t in pat if t in rtok.OPEN) - sum(1 for t in pat if t in rtok.CLOSE)
                 while end < len(body):
                     t = body[end]
                     if t in rtok.OPEN:
